@@ -258,8 +258,8 @@ VaState(a) ==    \* the va_list object at pointer a: [ok, pos] ; it must have be
 SetCells(m, b, o, new) == [m EXCEPT ![b].cells = [j \in 1..m[b].sz |-> IF j > o /\ j <= o + Len(new) THEN new[j - o] ELSE @[j]]]
 
 \* block parameter types: by value (blk, blk1 = INTEGER-class block in registers) of several sizes, and return blocks
-ByValTys == {"blk16", "blk1_16", "blk12", "blk20", "blk4"}
-BlkSz(ty) == CASE ty \in {"blk16", "blk1_16", "rblk16"} -> 16 [] ty = "blk12" -> 12 [] ty = "blk20" -> 20 [] ty = "blk4" -> 4 [] OTHER -> 0
+ByValTys == {"blk16", "blk1_16", "blk12", "blk20", "blk4", "blk1_8"}
+BlkSz(ty) == CASE ty \in {"blk16", "blk1_16", "rblk16"} -> 16 [] ty = "blk12" -> 12 [] ty = "blk20" -> 20 [] ty = "blk4" -> 4 [] ty = "blk1_8" -> 8 [] OTHER -> 0
 
 Step ==
   /\ status = "run"
